@@ -16,7 +16,7 @@ stated round-trip hypotheses (`SentWF`), in particular for the native bodies of 
 * `frag_irrelevant` — whatever the fragmentation, the reader loop returns the same messages, ends
   the same way and leaves the codec in the same state as on the unfragmented stream;
 * `framing_faithful` — every list of well-formed sent messages (plain bodies of every dispatched
-  type, unknown types, `Headers` lists of 1 … 65535 items delivered in batches of 32 with the right
+  type, unknown types, `Headers` lists of 0 … 65535 items delivered in batches of 32 with the right
   `remaining`, messages followed by attachment bytes delivered in chunks of ≤ 48 000) is read back as
   exactly the expected sequence, under every fragmentation; the loop then ends with
   `Error::Connection` (end of stream) with the codec idle and nothing buffered;
@@ -26,9 +26,12 @@ stated round-trip hypotheses (`SentWF`), in particular for the native bodies of 
 * `headers_zero_count_refused`, `headers_remaining_no_wrap` — a frame announcing 0 items but carrying some
   is refused with `BadMessage` before any item is decoded; `remaining` of a delivered batch never wraps
   (the code was repaired in /repo 8eb131841; before, `items_left` wrapped and batches were delivered);
-* `headers_empty_refused` — **the property fails for an empty `Headers` list** (known finding): the well-formed frame
-  `Headers { headers: vec![] }` is refused with `BadMessage` (so `framing_faithful` is stated for
-  non-empty lists); `headers_never_read_beyond` — while streaming a `Headers` body the codec never
+* `headers_empty_delivered` — the empty list `Headers { headers: vec![] }` is read as one empty batch
+  (repaired in /repo 11bd5ac16; it was refused with `BadMessage` before — finding
+  C19-empty-headers-refused), and `framing_faithful` / `fragmentation_with_delays_faithful` /
+  `fragmentation_with_idle_gaps_faithful` now cover EVERY `Headers` list of 0 … 65535 items;
+  `headers_count_without_items_refused`, `headers_zero_count_refused` — the other count/length
+  inconsistencies (count > 0 with length 2, count 0 with length > 2) are still refused; `headers_never_read_beyond` — while streaming a `Headers` body the codec never
   pulls bytes beyond the announced `msg_len`, whatever the count says;
 * `negotiate_min`, `accept_*`, `initiate_*`, `own_nonce_detected` — handshake decisions;
 * `ring_holds_last`, `recent_nonce_retained`, `self_connect_refused`, `evicted_nonce_not_detected` —
@@ -119,20 +122,24 @@ def exEnv : Env Bytes Nat :=
     decBody := fun _ raw => .ok raw, decItem := readU8 }
 
 /-- the hypotheses of `framing_faithful` are satisfiable: a ping-like frame, an unknown type, a
-`Headers` list of two items and an archive with 3 attachment bytes -/
+`Headers` list of two items, the EMPTY `Headers` list and an archive with 3 attachment bytes -/
 example : ∀ m ∈ [Sent.plain 3 [1, 2] [1, 2], Sent.unknown 200 [9], Sent.headers [(7, [7]), (8, [8])],
-                  Sent.archive 17 [5] [5] [1, 2, 3]],
+                  Sent.headers [], Sent.archive 17 [5] [5] [1, 2, 3]],
     SentWF exEnv (fun m => match m with | .body 17 _ => some 3 | _ => none) m := by
   intro m hm
   simp only [List.mem_cons, List.mem_nil_iff, or_false] at hm
-  rcases hm with rfl | rfl | rfl | rfl
+  rcases hm with rfl | rfl | rfl | rfl | rfl
   · exact ⟨by decide, by decide, by decide, rfl, rfl⟩
   · exact ⟨by decide, by decide, by decide⟩
-  · refine ⟨by decide, by decide, by decide, by decide, ?_⟩
+  · refine ⟨by decide, by decide, by decide, ?_⟩
     intro it hit
     simp only [List.mem_cons, List.mem_nil_iff, or_false] at hit
     rcases hit with rfl | rfl <;> exact ⟨by decide, by decide, fun x => rfl⟩
+  · exact ⟨by decide, by decide, by decide, fun it hit => by cases hit⟩
   · exact ⟨by decide, by decide, by decide, rfl, rfl⟩
+
+/-- what must be delivered for the empty list: one empty batch with nothing remaining -/
+example : expected (Sent.headers (B := Bytes) ([] : List (Nat × Bytes))) = [Message.headers [] 0] := rfl
 
 /-! ## timing: the read timeout per state, pauses between fragments -/
 
@@ -479,7 +486,7 @@ example : ∀ m ∈ [Sent.headers [(2, [2, 7, 7]), (0, [0]), (4, [4, 1, 2, 3, 4]
   intro m hm
   simp only [List.mem_cons, List.mem_nil_iff, or_false] at hm
   subst hm
-  refine ⟨by decide, by decide, by decide, by decide, ?_⟩
+  refine ⟨by decide, by decide, by decide, ?_⟩
   intro it hit
   simp only [List.mem_cons, List.mem_nil_iff, or_false] at hit
   rcases hit with rfl | rfl | rfl <;> exact ⟨by decide, by decide, fun x => by simp⟩
@@ -605,12 +612,14 @@ example : maxLen netMainnet T_OutputSegment = 10_784_256 ∧ maxLen netMainnet T
 
 /-! ## `Headers`: item count vs. length -/
 
-/-- **an empty `Headers` list is refused**: the well-formed frame `Headers { headers: vec![] }`
-(count 0, `msg_len` 2 — what a peer answers to `GetHeaders` when it has nothing newer) makes
-`Codec::read` return `BadMessage`.  So `framing_faithful` cannot include empty lists. -/
-theorem headers_empty_refused (env : Env B H) (rest : Bytes) :
-    (read env flatOps (idle : Codec H) (encodeSent env.net (Sent.headers (B := B) ([] : List (H × Bytes))) ++ rest)).res
-      = .err .badMessage := by
+/-- **an empty `Headers` list is delivered** (since /repo 11bd5ac16; it was refused with `BadMessage`
+before — finding C19-empty-headers-refused): the well-formed frame `Headers { headers: vec![] }` (count
+0, `msg_len` 2 — what a peer answers to `GetHeaders` when it has nothing newer) is read as the empty
+batch `Headers { headers: [], remaining: 0 }` after exactly 13 bytes, the codec is idle again and what
+follows is unread.  It is part of `framing_faithful` (`SentWF` no longer excludes the empty list). -/
+theorem headers_empty_delivered (env : Env B H) (rest : Bytes) :
+    read env flatOps (idle : Codec H) (encodeSent env.net (Sent.headers (B := B) ([] : List (H × Bytes))) ++ rest) =
+      { res := .msg (.headers [] 0), bytesRead := 0 + 11 + 2, alloc := 0 + 11 + 0 + 2 + 0, codec := idle, sock := rest } := by
   have h2 : (2 : Nat) ≤ maxLen env.net T_Headers := by
     have : maxLen env.net T_Headers = (2 + 365 * GV.Gen.MAX_BLOCK_HEADERS) * 4 := by
       unfold maxLen
@@ -626,25 +635,48 @@ theorem headers_empty_refused (env : Env B H) (rest : Bytes) :
     simp [encodeSent, writeMessage, headersBody, writeU16]
   have e1 := readLoop_header_ok env (34 + 1) (encHeader env.net T_Headers 2) (writeU16 0 ++ rest)
     (encHeader_length _ _ _) 0 0 _ _ _ hdec
-  have e2 := readLoop_count env 34 2 0 rest (by decide) (by decide) (0 + 11) (0 + 11 + 0)
-  have hfill : fill flatOps ({ buffer := [], state := .blockHeaders (2 - 2) 0 [] } : Codec H) rest
-      (nextLen env (State.blockHeaders (2 - 2) 0 ([] : List H))) =
-      some ({ buffer := [], state := .blockHeaders (2 - 2) 0 [] }, rest) := by
+  have e2 := readLoop_count_empty env 34 rest (0 + 11) (0 + 11 + 0)
+  unfold GV.Codec.read
+  rw [READ_FUEL_eq, hs, e1, e2]
+
+/-- **a count without items is still refused**: a `Headers` frame of `msg_len` 2 announcing `n > 0` items
+(nothing but the count) is answered `BadMessage` after the 13 bytes, state reset -/
+theorem headers_count_without_items_refused (env : Env B H) (n : Nat) (hn0 : n ≠ 0) (hn : n < 2^16) (rest : Bytes) :
+    (read env flatOps (idle : Codec H) (encHeader env.net T_Headers 2 ++ (writeU16 n ++ rest))).res = .err .badMessage ∧
+    (read env flatOps (idle : Codec H) (encHeader env.net T_Headers 2 ++ (writeU16 n ++ rest))).codec.state = .none ∧
+    (read env flatOps (idle : Codec H) (encHeader env.net T_Headers 2 ++ (writeU16 n ++ rest))).sock = rest := by
+  have h2 : (2 : Nat) ≤ maxLen env.net T_Headers := by
+    have : maxLen env.net T_Headers = (2 + 365 * GV.Gen.MAX_BLOCK_HEADERS) * 4 := by
+      unfold maxLen
+      rw [if_pos isKnown_headers]
+      simp [maxMsgSize, T_Headers, KNOWN_LEN_FACTOR]
+    rw [this]; decide
+  have hdec : decHeader env.net (encHeader env.net T_Headers 2) = .ok (.known T_Headers 2) [] 0 := by
+    have := decHeader_encHeader env.net T_Headers 2 (by decide) []
+    rw [List.append_nil] at this
+    rw [this, if_neg (by omega), if_pos isKnown_headers]
+  have e1 := readLoop_header_ok env (34 + 1) (encHeader env.net T_Headers 2) (writeU16 n ++ rest)
+    (encHeader_length _ _ _) 0 0 _ _ _ hdec
+  have e2 := readLoop_count env 34 2 n rest (by decide) hn (fun h => hn0 h.1) (0 + 11) (0 + 11 + 0)
+  have hfill : fill flatOps ({ buffer := [], state := .blockHeaders (2 - 2) n [] } : Codec H) rest
+      (nextLen env (State.blockHeaders (2 - 2) n ([] : List H))) =
+      some ({ buffer := [], state := .blockHeaders (2 - 2) n [] }, rest) := by
     simp [fill, nextLen]
-  have hstep : stepState env ({ buffer := [], state := .blockHeaders (2 - 2) 0 [] } : Codec H)
-      (nextLen env (State.blockHeaders (2 - 2) 0 ([] : List H))) =
+  have hstep : stepState env ({ buffer := [], state := .blockHeaders (2 - 2) n [] } : Codec H)
+      (nextLen env (State.blockHeaders (2 - 2) n ([] : List H))) =
       .inl (.err .badMessage, { buffer := [], state := .none }, 0) := by
     simp [stepState]
-  have e3 := readLoop_inl env flatOps 33 ({ buffer := [], state := .blockHeaders (2 - 2) 0 [] } : Codec H) _ _ _ _
-    (0 + 11 + 2) (0 + 11 + 0 + 2 + min HEADER_BATCH_SIZE 0 * env.hdrMem) _ _ hfill hstep
+  have e3 := readLoop_inl env flatOps 33 ({ buffer := [], state := .blockHeaders (2 - 2) n [] } : Codec H) _ _ _ _
+    (0 + 11 + 2) (0 + 11 + 0 + 2 + min HEADER_BATCH_SIZE n * env.hdrMem) _ _ hfill hstep
   unfold GV.Codec.read
-  rw [READ_FUEL_eq, hs, e1, e2, e3]
+  rw [READ_FUEL_eq, e1, e2, e3]
+  exact ⟨rfl, rfl, rfl⟩
 
 /-- **a `Headers` frame announcing 0 items but carrying some is refused before anything is decoded or
 delivered** (repair 8eb131841: `if *bytes_left == 0 || *items_left == 0`): from the idle codec, the
 frame header, the count and at most one header's worth of the body are pulled, then `BadMessage` with the
 state reset — no batch with a wrapped `remaining` reaches the handler; under every fragmentation -/
-theorem headers_zero_count_refused (env : Env B H) (L : Nat) (hL : 2 ≤ L) (hmax : L ≤ maxLen env.net T_Headers)
+theorem headers_zero_count_refused (env : Env B H) (L : Nat) (hL : 2 < L) (hmax : L ≤ maxLen env.net T_Headers)
     (h64 : L < 2^64) (rest : Bytes) (hpresent : min (L - 2) env.hdrMax ≤ rest.length) (frags : List Bytes)
     (hfr : frags.flatten = encHeader env.net T_Headers L ++ (writeU16 0 ++ rest)) :
     (read env fragOps (idle : Codec H) frags).res = .err .badMessage ∧
@@ -658,7 +690,7 @@ theorem headers_zero_count_refused (env : Env B H) (L : Nat) (hL : 2 ≤ L) (hma
     rw [this, if_neg (by omega), if_pos isKnown_headers]
   have e1 := readLoop_header_ok env (34 + 1) (encHeader env.net T_Headers L) (writeU16 0 ++ rest)
     (encHeader_length _ _ _) 0 0 _ _ _ hdec
-  have e2 := readLoop_count env 34 L 0 rest hL (by decide) (0 + 11) (0 + 11 + 0)
+  have e2 := readLoop_count env 34 L 0 rest (by omega) (by decide) (fun h => by omega) (0 + 11) (0 + 11 + 0)
   have hnl : nextLen env (State.blockHeaders (L - 2) 0 ([] : List H)) = min (L - 2) env.hdrMax := rfl
   have hsplit : rest = rest.take (min (L - 2) env.hdrMax) ++ rest.drop (min (L - 2) env.hdrMax) :=
     (List.take_append_drop _ _).symm
